@@ -75,6 +75,7 @@ type recorder struct {
 	lostWait           bool // a drain timed out once: stop waiting
 	lastCommitSeq      int  // log position of the last commit
 	lastStoreOwedReorg bool
+	extra              []*fsub                                 // subscribers that come and go (churn.go)
 	checkStored        func(num uint64, hash felt.Felt) string // "" = content equals the valid block
 }
 
@@ -198,7 +199,15 @@ func (r *recorder) drain(wantNewHeads, wantReorgs int, timeoutBeats int64) bool 
 	}()
 	r.mu.Lock()
 	defer r.mu.Unlock()
-	for (r.recvNewHead < wantNewHeads || r.recvReorg < wantReorgs) && !r.lostWait {
+	extrasBehind := func() bool {
+		for _, x := range r.extra {
+			if len(x.got) < x.owed(wantNewHeads, wantReorgs) {
+				return true
+			}
+		}
+		return false
+	}
+	for (r.recvNewHead < wantNewHeads || r.recvReorg < wantReorgs || extrasBehind()) && !r.lostWait {
 		if beats.Load() > deadline {
 			r.lostWait = true
 			drainLosses.Add(1)
